@@ -82,6 +82,12 @@ def diskStep (d : Disk) (toks : List String) : Option (Disk × String) :=
         | _ => none
       let (d', b, s) := contains d kind hash size pc
       some (d', s!"contains={if b then 1 else 0};{s} " ++ showDisk d')
+  | "disk.damage" :: rest => do
+      let kind ← parseKind? (← kv rest "kind")
+      let hash ← kv rest "hash"
+      let how ← (← kv rest "how").toNat?
+      let d' := damage d kind hash how
+      some (d', "damage " ++ showDisk d')
   | ["disk.drain"] =>
       let d' := drain d
       some (d', "drain " ++ showDiskFull d')
